@@ -40,14 +40,25 @@ class Point(pydantic.BaseModel):
     y: int = 0
 
 
+def _even(v):
+    # the user's own validation step: it raises (pydantic reports the exception object itself among the error details)
+    if v % 2:
+        raise ValueError('must be even')
+    return v
+
+
+Even = Annotated[int, pydantic.AfterValidator(_even)]
+
 ANNOTATIONS = {
+    'even': Even,
     'posint': Annotated[int, pydantic.Field(gt=0, le=100)], 'shortstr': Annotated[str, pydantic.Field(max_length=3)],
     'int': int, 'str': str, 'float': float, 'bool': bool, 'optint': Optional[int], 'listint': List[int],
     'dictint': Dict[str, int], 'any': Any, 'point': Point, 'color': Color,
 }
-ANN_SRC = {'posint': 'Annotated[int, Field(gt=0, le=100)]', 'shortstr': 'Annotated[str, Field(max_length=3)]', 'int': 'int', 'str': 'str', 'float': 'float', 'bool': 'bool', 'optint': 'Optional[int]', 'listint': 'List[int]',
+ANN_SRC = {'even': 'Even', 'posint': 'Annotated[int, Field(gt=0, le=100)]', 'shortstr': 'Annotated[str, Field(max_length=3)]', 'int': 'int', 'str': 'str', 'float': 'float', 'bool': 'bool', 'optint': 'Optional[int]', 'listint': 'List[int]',
            'dictint': 'Dict[str, int]', 'any': 'Any', 'point': 'Point', 'color': 'Color'}
 VALUES = {
+    'even': [4, 3, 0, '6', '7', 'x', None],
     'posint': [5, 100, 0, -1, 101, '7', 'x', None], 'shortstr': ['abc', '', 'abcd', 1, None],
     'int': [1, 0, -5, '1', '7', 1.0, 1.5, 'x', None, True, [1], {}],
     'str': ['s', '', 1, None, ['s'], True],
@@ -116,7 +127,7 @@ def make_function(key, params, is_async, view=False):
             star = True
         parts.append(f'{p["n"]}{ann}{d}')
     recv = '{' + ', '.join([f'{p["n"]!r}: {p["n"]}' for p in params] + (["'<self.context>': _ctx_mark(self.context)"] if view else [])) + '}'
-    ns = {'_perform': S._perform, '_ctx_mark': S.ctx_mark, 'Annotated': Annotated, 'Field': pydantic.Field, 'Optional': Optional, 'List': List, 'Dict': Dict, 'Any': Any, 'Point': Point, 'Color': Color}
+    ns = {'_perform': S._perform, '_ctx_mark': S.ctx_mark, 'Annotated': Annotated, 'Field': pydantic.Field, 'Optional': Optional, 'List': List, 'Dict': Dict, 'Any': Any, 'Point': Point, 'Color': Color, 'Even': Even}
     src = f'{"async " if is_async else ""}def f({", ".join(parts)}):\n    return _perform({key!r}, {recv})\n'
     exec(compile(src, '<generated method>', 'exec', dont_inherit=True), ns)      # no `from __future__ import annotations`
     _FUNCS[ck] = ns['f']
